@@ -87,6 +87,15 @@ Section C04.
                   (import_counter (persist_entropy kdf seal p salt cke n1 n2 e ex inn))))).
   Qed.
 
+  (* "any fresh instance": the export of an IMPORTED keystore (which persists the recovered entropy
+     under fresh keys) imports, in a further instance, to the same entropy and seed again *)
+  Theorem C04_export_import_two_hops : forall p salt cke n1 n2 e ex inn m sd cke' n1' n2',
+    ends_nul p = false ->
+    create_seed H PBKDF2 e p = Bip39.Ok (m, sd) ->
+    exists j', reimport H PBKDF2 kdf seal open_box (persist_entropy kdf seal p salt cke n1 n2 e ex inn) p cke' n1' n2' = Some j' /\
+               import_keystore_seed H PBKDF2 kdf open_box j' p = Some (Bip39.Ok (e, sd)).
+  Proof. exact (two_hop H PBKDF2 kdf seal open_box box). Qed.
+
   (* restart and public-passphrase change: a stored public key row gives back the script hash it
      was issued with, and re-keying cryptoKeyPub's protection leaves cryptoKeyPub unchanged *)
   Theorem C04_reload :
@@ -162,6 +171,7 @@ End C04Sign.
 
 Print Assumptions C04_restore_same.
 Print Assumptions C04_export_import.
+Print Assumptions C04_export_import_two_hops.
 Print Assumptions C04_reload.
 Print Assumptions C04_routes_agree.
 Print Assumptions C04_priv_matches_pub.
